@@ -107,4 +107,42 @@ PROPS["C13"] = dict(
     parts=[dict(engine="e2", harness="c13_division")],
 )
 
+PROPS["C06"] = dict(
+    level="model_checking",
+    rule="cases: (a) SimpleLock / PaddedLock / PtrLock (all unlock variants) "
+         "/ ThreadRWlock driven by per-thread scripts of lock / try_lock / "
+         "read / write operations from 2-3 threads; (b) one happens-before "
+         "probe (plain data written before a promised edge, read after it) "
+         "per edge: lock release->acquire, lockable hand-over between "
+         "iterations, barrier arrival->departure for all seven barriers, "
+         "entry to and return from on_each / do_all / for_each in normal and "
+         "burnPower fast mode, worklist push->pop for 11 worklist families. "
+         "Executions = all schedules with <= bound deviations; on each the "
+         "engine computes happens-before with vector clocks from the "
+         "DECLARED memory order of every atomic operation and reports a "
+         "probe access that is not ordered; mutual exclusion is checked with "
+         "an engine-invisible holder count; non-trivial = distinct trace "
+         "hash among executions with >= 1 deviation",
+    bound_note="per-cell bound_completed in coverage.cells",
+    assumptions=E1_ASSUME + [
+        "happens-before is checked per explored SC interleaving; non-SC "
+        "values of relaxed atomics are not enumerated"],
+    deadline=dict(quick=200, thorough=2400),
+    technique="stateless model checking of the implementation: exhaustive "
+              "deviation-bounded schedule enumeration (gsched) with "
+              "vector-clock happens-before tracking that honours declared "
+              "memory orders",
+    level_text="every schedule with <= d deviations (d=1-2 quick, 2-3 "
+               "thorough) of the lock scripts and edge probes runs on the "
+               "real code; exclusion, admission of every requester and "
+               "HB-ordering of every probe access are checked on each",
+    level_note="bounded: <=3 threads, scripts of <=2 operations per thread; "
+               "HB exact per execution for the C++ release/acquire/fence "
+               "rules implemented in engine/gsched.cpp (release sequences "
+               "continued by RMWs, fences via pending-acquire / "
+               "fence-release clocks); consume treated as acquire",
+    design_ref="DESIGN.md 2.4, 7/C06",
+    parts=[dict(engine="e1", harness="c06_locks_hb")],
+)
+
 NOT_APPLICABLE = {}
